@@ -35,14 +35,14 @@ def gen_cases(rng, tier, driver, corr, stats):
                 k, n, ad, pt = gen.patterned(rng, klen), gen.patterned(rng, 16), rnd_bytes(rng, alen), rnd_bytes(rng, plen)
                 corr.one("SIV %s ENC %s %s %s %s" % (v, hx(k), hx(n), hx(ad), hx(pt))); stats["ops"]["SIV-ENC"] += 1; stats["ptlen"].append(plen)
                 if rng.random() < 0.25:      # the same through the C++ class (key constructor / set_key, pointer / byte_array overload)
-                    corr.one("SIVC %s ENC %s %s %s %s %s" % (v, hx(k), hx(n), hx(ad), hx(pt), rng.choice(["ctor", "setkey", "ctor BA", "setkey BA"]))); stats["ops"]["SIV-ENC-C++"] += 1
+                    corr.one("SIVC %s ENC %s %s %s %s %s" % (v, hx(k), hx(n), hx(ad), hx(pt), rng.choice(["ctor", "setkey", "setkeybad", "ctor BA", "setkey BA", "setkeybad BA"]))); stats["ops"]["SIV-ENC-C++"] += 1
         for v, klen in ISAPV.items():
             pairs = [(a, p) for a in (0, 1, 7, 8, 9, 17) for p in (0, 1, 7, 8, 9, 16, 29)] + [(rng.choice([0, 5, 40]), p) for p in gen.boundary_lengths(8, maxlen)]
             for (alen, plen) in pairs:
                 k, n, ad, pt = gen.patterned(rng, klen), gen.patterned(rng, 16), rnd_bytes(rng, alen), rnd_bytes(rng, plen)
                 corr.one("ISAP %s ENC %s %s %s %s" % (v, hx(k), hx(n), hx(ad), hx(pt))); stats["ops"]["ISAP-ENC"] += 1; stats["ptlen"].append(plen)
                 if rng.random() < 0.25:
-                    corr.one("ISAPC %s ENC %s %s %s %s %s" % (v, hx(k), hx(n), hx(ad), hx(pt), rng.choice(["ctor", "setkey", "ctor BA", "setkey BA"]))); stats["ops"]["ISAP-ENC-C++"] += 1
+                    corr.one("ISAPC %s ENC %s %s %s %s %s" % (v, hx(k), hx(n), hx(ad), hx(pt), rng.choice(["ctor", "setkey", "setkeybad", "ctor BA", "setkey BA", "setkeybad BA"]))); stats["ops"]["ISAP-ENC-C++"] += 1
             # packet sequences on one pre-computed key object: encrypt, valid decrypt, forged decrypt, save/reload; the raw key object
             # is compared with its creation-time snapshot after every operation (CHK)
             for _s in range(4 if tier == "quick" else 12):
